@@ -313,6 +313,26 @@ class Build:
                 raise BuildError("import", f"{name}: {type(e).__name__}: {e}\n" + traceback.format_exc()[-1500:])
         self._imported = True
 
+    def import_each_first(self) -> List[tuple]:
+        """every generated package imported FIRST in a fresh interpreter (import order must not matter, also when packages
+        refer to each other circularly).  Returns [(package, error text)] for those that fail."""
+        import subprocess
+
+        from . import env
+
+        bad = []
+        for pkg in self.user_packages():
+            name = self.module_name(pkg)
+            code = f"import sys; sys.path.insert(0, {self.gen!r}); import importlib; importlib.import_module({name!r})"
+            try:
+                r = subprocess.run([sys.executable, "-W", "ignore", "-c", code], capture_output=True, text=True, timeout=120, env=env.child_env())
+            except subprocess.TimeoutExpired:
+                bad.append((pkg, "timeout"))
+                continue
+            if r.returncode != 0:
+                bad.append((pkg, (r.stderr or r.stdout)[-700:]))
+        return bad
+
     def module(self, package: str):
         self.import_all()
         return self._modules[package]
